@@ -108,6 +108,7 @@ pub fn cases(args: &[String]) {
     std::panic::set_hook(Box::new(|_| {}));
     let mut out = Vec::new();
     for _ in 0..n {
+        crate::util::tick_idx(0, serde_json::Value::Null);
         let (m, ops) = gen_case(&mut rng);
         let (outcome, outs, fin) = run(m, &ops);
         out.push(json!({"m": m, "ops": ops_json(&ops), "outcome": outcome, "outs": outs, "final": fin}));
@@ -122,6 +123,7 @@ pub fn pick_cases(args: &[String]) {
     let mut rng = SplitMix64::new(seed ^ 0xF1C);
     let mut out = Vec::new();
     for i in 0..n {
+        crate::util::tick_idx(i as u64, serde_json::Value::Null);
         let bits = rng.range(1, 53);
         let nn: u64 = match i % 4 {
             0 => rng.range(1, 100),
@@ -191,6 +193,7 @@ pub fn search(args: &[String]) {
     let mut found = Vec::new();
     let mut tried = 0;
     for _ in 0..n {
+        crate::util::tick_idx(0, serde_json::Value::Null);
         let (m, pre) = gen_case(&mut rng);
         let mut us = Vec::new();
         for t in 0..2 * m {
@@ -226,4 +229,28 @@ pub fn replay(args: &[String]) {
         let (oc, outs, fin) = run(m, &ops);
         println!("{}", json!({"outcome": oc, "outs": outs, "final": fin}));
     }
+}
+
+/// search aid: a large shuffle (m = 2^24).  The first draw after a reset is floor(xsi * m) with xsi the 52-bit fraction of
+/// the generator output; a sampler with fewer fraction bits cannot reach every position (so not every order is possible)
+pub fn large(args: &[String]) {
+    let seed = arg_u64(args, "--seed", 1);
+    let m: usize = 1 << 24;
+    let mut rng = SplitMix64::new(seed ^ 0xF1A);
+    let mut fy = FYshuffle::new(m);
+    let mut rows: Vec<Value> = Vec::new();
+    let mut wrong = 0u64;
+    let mut odd = 0u64;
+    let n = 64u64;
+    for t in 0..n {
+        crate::util::tick_idx(t, json!({"m": m}));
+        let u = rng.next_u64();
+        fy.reset();
+        let mut srng = ScriptRng { vals: vec![u], pos: 0 };
+        let d = fy.next(&mut srng) as u64;
+        let expect = u >> 40; // (u >> 12) * 2^-52 * 2^24, exact
+        if d != expect { wrong += 1; if rows.len() < 3 { rows.push(json!({"u": u, "draw": d, "floor_xsi_m": expect})); } }
+        if d % 2 == 1 { odd += 1; }
+    }
+    println!("{}", json!({"m": m, "tried": n, "wrong": wrong, "odd_draws": odd, "examples": rows}));
 }
